@@ -201,7 +201,7 @@ PROPS["C01"] = {
 PROPS["C11"] = {
     "level": "other",
     "engine": "dmx-facts + panic-residue",
-    "rules": [p_wire.dom_errcls, p_wire.gate_hint, p_macro.dom_macro, p_plan.sync, p_charset.tab_eci, p_b256.b256_sync, p_panic.residue_rule("encode"), p_panic.invariants],
+    "rules": [p_wire.dom_errcls, p_wire.gate_hint, p_macro.dom_macro, p_plan.sync, p_charset.tab_eci, p_b256.b256_sync, p_panic.residue_rule("encode"), p_panic.invariants, p_panic.t_loops_encode],
     "explanation": "Clause-level claim. Decided: DOM-ERRCLS - the error is SymbolListEmpty iff the list is empty (its only constructions are "
                    "on the true edge of symbol_list.is_empty(), which is tested first, and in the reservation-hint wrapper, which GATE-HINT "
                    "shows is Some for every non-empty list); DOM-MACRO - the macro re-slice cannot panic for short envelopes; SYNC - planner "
